@@ -63,18 +63,22 @@ class C11(Prop):
     coq_targets = ["props/C11.vo"]
     props_file = "props/C11.v"
     design_ref = "DESIGN.md §4 C11, §3.2 (Rowan), §8"
-    level_text = ("Coq theorems (model = the editing API over a store of trees with re-based handles; variant `fixed` = the code with proposed_fixes/C11-*.patch): "
-                  "(1) for EVERY in-range history of push, insert, replace, remove_entry, remove_relation, set_version, drop_constraint, set_archqual, with operands "
-                  "built by Entry::from(vec![Relation::new(..)]), from Relations::new() or any constructor-built field, issued through handles obtained from the current root: "
-                  "no panic, the root register holds exactly the constructor-built tree of the list-of-lists model (so the edit through the entry/relation handle is visible in the field), "
-                  "its structure read by the accessors is the list model, and its text is the canonical rendering (separators neither duplicated, dangling nor fused); "
-                  "(2) on ANY children list (any layout, empty entries, substitution variables): Entry::remove/Relation::remove delete the node, adjacent white space and at most one separator and nothing else; "
+    level_text = ("Coq theorems (model = the editing API over a store of trees with re-based handles; variant `fixed` = /repo with the eight C11 fixes): "
+                  "(1) for ANY well-formed field in the sense of C10 (RelGrammar.wf_rfield: arbitrary white space in every slot, newlines, empty entries, trailing comma, substitution variables) "
+                  "and the empty field, for EVERY in-range history of the twelve operations push, insert, replace, remove_entry, Entry::push, Entry::replace, remove_relation, set_version, "
+                  "drop_constraint, set_archqual, set_architectures, add_profile (operands built by Entry::from(vec![Relation::new(..)]) / Relation::new, identifier texts), issued through "
+                  "handles obtained from the current root: no panic; after every step the root holds the tree of the layout the abstract operation a_op (model/RelLive.v) produces, that layout is "
+                  "well-formed, its content is the list-of-lists model applied to the content before, substitution variables and all entries the operation does not name are untouched, and the printed "
+                  "text reads back (parse_relaxed without error; strict from_str when there is no substitution variable) to exactly the list model's content, through C10 "
+                  "(C11_any_step, C11_any_history, C11_any_history_from_text, C11_any_reread); "
+                  "(1') for constructor-built fields the same with the result spelled out as the canonical tree and text of the list model and read by the accessor model `structure` (C11_history_constructed_reread); "
+                  "(2) on ANY children list (any layout, error nodes): Entry::remove/Relation::remove delete the node, adjacent white space and at most one separator and nothing else; "
                   "insert/push add the entry and separator tokens only; the entries after an insert are the list insert; an update below a path leaves the text outside that node alone; "
-                  "the store-level effect of Entry::remove through a handle at any path of any tree; "
-                  "(3) for each of the 8 defects of the code at /repo HEAD a _refuted theorem (failing history on `shipped` and on the variant lacking only that fix, outcome on `fixed`); "
+                  "the store-level effect of Entry::remove through a handle at any path of any tree; the machine computes the pure tree functions of RelEditTree.v on any tree (C11_any_machine_step); "
+                  "(3) for each of the 8 defects of the code before the fixes a _refuted theorem (failing history on `shipped` and on the variant lacking only that fix, outcome on `fixed`); "
                   "(4) a witness for the recorded finding (handles obtained before a rebuilding operation). "
-                  "PARTIAL: C11_full (any well-formed initial layout, all 14 operations, operands built by parsing/builder, re-parse of the printed text) is stated as a Definition; "
-                  "outside (1)-(2) the property is checked by the rel-edit stream and its list-model oracle on every run.")
+                  "PARTIAL: C11_full is stated as a Definition; not proved: operands built by parsing or by the builder, texts that parse without error but are not renderings of a wf_rfield, "
+                  "the connection of C10's content with this cone's `structure` on arbitrary layouts, handles obtained earlier; there the property is checked by the rel-edit stream and its list-model oracle on every run.")
     level_note = ("Model: coq/model/RelEdit.v — the editing API of debian-control/src/lossless/relations.rs over a store of trees and "
                   "re-based handles (rowan 0.16.1 red layer as the code experiences it).")
     rule = ("rel-edit: the repo's own editing tests and one case per known defect; every history of length <= 2 (thorough 3 on fewer seeds) over 62 "
